@@ -1,2 +1,1139 @@
 (* Proofs/Analyze_proofs.v — lemmas about Model/Analyze.v *)
+From Coq Require Import Lia.
 From RJ Require Import Base.Outcome Model.Token Model.Ast Model.Ir Model.Analyze.
+Local Open Scope outcome_scope.
+
+(* ====================================================================
+   1. Induction over the syntax (nested in lists / options / auxiliary types)
+   ==================================================================== *)
+Section All.
+  Variable P : expr -> Prop.
+  Definition opt_all (o : option expr) : Prop := match o with Some x => P x | None => True end.
+  Definition param_all (p : param) : Prop := match p with MkParam _ d => opt_all d end.
+  Definition optparams_all (ps : option (list param * span)) : Prop :=
+    match ps with Some q => Forall param_all (fst q) | None => True end.
+  Definition bind_all (b : bind) : Prop :=
+    match b with MkBind _ ps v => optparams_all ps /\ P v end.
+  Definition assert_all (a : assert_) : Prop := match a with MkAssert _ c m => P c /\ opt_all m end.
+  Definition spec_all (c : comp_spec) : Prop := match c with CFor _ e => P e | CIf e => P e end.
+  Definition fname_all (n : field_name) : Prop := match n with FnExpr e _ => P e | _ => True end.
+  Definition field_all (f : field) : Prop :=
+    match f with
+    | FValue n _ _ v => fname_all n /\ P v
+    | FFunc n ps _ _ v => fname_all n /\ Forall param_all ps /\ P v
+    end.
+  Definition member_all (m : member) : Prop :=
+    match m with MLocal b => bind_all b | MAssert a => assert_all a | MField f => field_all f end.
+  Definition arg_all (a : arg) : Prop := match a with APositional e => P e | ANamed _ e => P e end.
+  Definition obj_all (o : obj_inside) : Prop :=
+    match o with
+    | OMembers ms => Forall member_all ms
+    | OComp l1 n _ b l2 cs =>
+        Forall bind_all l1 /\ P n /\ P b /\ Forall bind_all l2 /\ Forall spec_all cs
+    end.
+  Definition children_all (e : expr) : Prop :=
+    match e with
+    | ENull _ | EBool _ _ | ESelf _ | EDollar _ | EString _ _ | ETextBlock _ _ | ENumber _ _
+    | ESuperField _ _ _ | EIdent _ _ => True
+    | EParen _ x | EField _ x _ | EUnary _ _ x | EImport _ x | EImportStr _ x
+    | EImportBin _ x | EError _ x | EInSuper _ x _ | ESuperIndex _ _ x => P x
+    | EObject _ o => obj_all o
+    | EArray _ items => Forall P items
+    | EArrayComp _ x cs => P x /\ Forall spec_all cs
+    | EIndex _ a b | EBinary _ a _ b => P a /\ P b
+    | ESlice _ x a b c => P x /\ opt_all a /\ opt_all b /\ opt_all c
+    | ECall _ f args _ => P f /\ Forall arg_all args
+    | ELocal _ bs x => Forall bind_all bs /\ P x
+    | EIf _ c t f => P c /\ P t /\ opt_all f
+    | EObjExt _ x o _ => P x /\ obj_all o
+    | EFunc _ ps x => Forall param_all ps /\ P x
+    | EAssert _ a x => assert_all a /\ P x
+    end.
+
+  Section Rec.
+    Variable rec : forall e, P e.
+    Definition list_rec' {A} (Q : A -> Prop) (f : forall a, Q a) : forall l, Forall Q l :=
+      fix go l := match l with [] => Forall_nil Q | x :: t => Forall_cons x (f x) (go t) end.
+    Definition opt_rec (o : option expr) : opt_all o :=
+      match o with Some x => rec x | None => I end.
+    Definition param_rec (p : param) : param_all p := match p with MkParam _ d => opt_rec d end.
+    Definition optparams_rec (ps : option (list param * span)) : optparams_all ps :=
+      match ps with Some q => list_rec' param_all param_rec (fst q) | None => I end.
+    Definition bind_rec (b : bind) : bind_all b :=
+      match b with MkBind _ ps v => conj (optparams_rec ps) (rec v) end.
+    Definition assert_rec (a : assert_) : assert_all a :=
+      match a with MkAssert _ c m => conj (rec c) (opt_rec m) end.
+    Definition spec_rec (c : comp_spec) : spec_all c :=
+      match c with CFor _ e => rec e | CIf e => rec e end.
+    Definition fname_rec (n : field_name) : fname_all n :=
+      match n with FnExpr e _ => rec e | FnIdent _ => I | FnString _ _ => I end.
+    Definition field_rec (f : field) : field_all f :=
+      match f with
+      | FValue n _ _ v => conj (fname_rec n) (rec v)
+      | FFunc n ps _ _ v => conj (fname_rec n) (conj (list_rec' param_all param_rec ps) (rec v))
+      end.
+    Definition member_rec (m : member) : member_all m :=
+      match m with MLocal b => bind_rec b | MAssert a => assert_rec a | MField f => field_rec f end.
+    Definition arg_rec (a : arg) : arg_all a :=
+      match a with APositional e => rec e | ANamed _ e => rec e end.
+    Definition obj_rec (o : obj_inside) : obj_all o :=
+      match o with
+      | OMembers ms => list_rec' member_all member_rec ms
+      | OComp l1 n _ b l2 cs =>
+          conj (list_rec' bind_all bind_rec l1)
+               (conj (rec n) (conj (rec b) (conj (list_rec' bind_all bind_rec l2)
+                                                 (list_rec' spec_all spec_rec cs))))
+      end.
+  End Rec.
+
+  Hypothesis step : forall e, children_all e -> P e.
+
+  Fixpoint expr_ind' (e : expr) {struct e} : P e :=
+    step e
+      (match e as e0 return children_all e0 with
+       | ENull _ | EBool _ _ | ESelf _ | EDollar _ | EString _ _ | ETextBlock _ _ | ENumber _ _
+       | ESuperField _ _ _ | EIdent _ _ => I
+       | EParen _ x | EField _ x _ | EUnary _ _ x | EImport _ x | EImportStr _ x
+       | EImportBin _ x | EError _ x | EInSuper _ x _ | ESuperIndex _ _ x => expr_ind' x
+       | EObject _ o => obj_rec expr_ind' o
+       | EArray _ items => list_rec' P expr_ind' items
+       | EArrayComp _ x cs => conj (expr_ind' x) (list_rec' spec_all (spec_rec expr_ind') cs)
+       | EIndex _ a b | EBinary _ a _ b => conj (expr_ind' a) (expr_ind' b)
+       | ESlice _ x a b c =>
+           conj (expr_ind' x) (conj (opt_rec expr_ind' a) (conj (opt_rec expr_ind' b) (opt_rec expr_ind' c)))
+       | ECall _ f args _ => conj (expr_ind' f) (list_rec' arg_all (arg_rec expr_ind') args)
+       | ELocal _ bs x => conj (list_rec' bind_all (bind_rec expr_ind') bs) (expr_ind' x)
+       | EIf _ c t f => conj (expr_ind' c) (conj (expr_ind' t) (opt_rec expr_ind' f))
+       | EObjExt _ x o _ => conj (expr_ind' x) (obj_rec expr_ind' o)
+       | EFunc _ ps x => conj (list_rec' param_all (param_rec expr_ind') ps) (expr_ind' x)
+       | EAssert _ a x => conj (assert_rec expr_ind' a) (expr_ind' x)
+       end).
+End All.
+
+(* ---- the [_all] family is monotone and closed under modus ponens ---- *)
+Lemma Forall_mp {A} (P Q : A -> Prop) l :
+  Forall (fun x => P x -> Q x) l -> Forall P l -> Forall Q l.
+Proof. induction 1; intros H1; inversion H1; subst; constructor; auto. Qed.
+
+Lemma Forall_mp3 {A} (R P Q : A -> Prop) l :
+  (forall x, R x -> P x -> Q x) -> Forall R l -> Forall P l -> Forall Q l.
+Proof. intros H HR; induction HR; intros HP; inversion HP; subst; constructor; auto. Qed.
+
+Section AllMp.
+  Variables A B : expr -> Prop.
+  Let AB := fun e => A e -> B e.
+  Lemma opt_all_mp o : opt_all AB o -> opt_all A o -> opt_all B o.
+  Proof. destruct o; simpl; auto. Qed.
+  Lemma param_all_mp p : param_all AB p -> param_all A p -> param_all B p.
+  Proof. destruct p; simpl; apply opt_all_mp. Qed.
+  Lemma params_all_mp l : Forall (param_all AB) l -> Forall (param_all A) l -> Forall (param_all B) l.
+  Proof. apply Forall_mp3. apply param_all_mp. Qed.
+  Lemma bind_all_mp b : bind_all AB b -> bind_all A b -> bind_all B b.
+  Proof.
+    destruct b as [n ps v]; simpl; intros [H1 H2] [H3 H4]; split; auto.
+    destruct ps as [q|]; simpl in *; auto. revert H3; apply params_all_mp; auto.
+  Qed.
+  Lemma binds_all_mp l : Forall (bind_all AB) l -> Forall (bind_all A) l -> Forall (bind_all B) l.
+  Proof. apply Forall_mp3. apply bind_all_mp. Qed.
+  Lemma assert_all_mp a : assert_all AB a -> assert_all A a -> assert_all B a.
+  Proof. destruct a; simpl; intros [H1 H2] [H3 H4]; split; auto. revert H4; apply opt_all_mp; auto. Qed.
+  Lemma spec_all_mp c : spec_all AB c -> spec_all A c -> spec_all B c.
+  Proof. destruct c; simpl; auto. Qed.
+  Lemma specs_all_mp l : Forall (spec_all AB) l -> Forall (spec_all A) l -> Forall (spec_all B) l.
+  Proof. apply Forall_mp3. apply spec_all_mp. Qed.
+  Lemma fname_all_mp n : fname_all AB n -> fname_all A n -> fname_all B n.
+  Proof. destruct n; simpl; auto. Qed.
+  Lemma field_all_mp f : field_all AB f -> field_all A f -> field_all B f.
+  Proof.
+    destruct f; simpl.
+    - intros [H1 H2] [H3 H4]; split; auto. revert H3; apply fname_all_mp; auto.
+    - intros [H1 [H2 H2']] [H3 [H4 H4']]; repeat split; auto.
+      + revert H3; apply fname_all_mp; auto.
+      + revert H4; apply params_all_mp; auto.
+  Qed.
+  Lemma member_all_mp m : member_all AB m -> member_all A m -> member_all B m.
+  Proof. destruct m; simpl; [apply bind_all_mp | apply assert_all_mp | apply field_all_mp]. Qed.
+  Lemma arg_all_mp a : arg_all AB a -> arg_all A a -> arg_all B a.
+  Proof. destruct a; simpl; auto. Qed.
+  Lemma obj_all_mp o : obj_all AB o -> obj_all A o -> obj_all B o.
+  Proof.
+    destruct o; simpl.
+    - apply Forall_mp3. apply member_all_mp.
+    - intros (H1 & H2 & H3 & H4 & H5) (G1 & G2 & G3 & G4 & G5); repeat split; auto.
+      + revert G1; apply binds_all_mp; auto.
+      + revert G4; apply binds_all_mp; auto.
+      + revert G5; apply specs_all_mp; auto.
+  Qed.
+  Lemma children_all_mp e : children_all AB e -> children_all A e -> children_all B e.
+  Proof.
+    destruct e; simpl; auto;
+      repeat match goal with
+             | |- _ /\ _ -> _ => intros [? ?]
+             | |- _ -> _ => intro
+             | H : _ /\ _ |- _ => destruct H
+             end;
+      repeat split;
+      try (match goal with
+           | H : AB ?x, G : A ?x |- B ?x => exact (H G)
+           | H : opt_all AB ?o, G : opt_all A ?o |- opt_all B ?o => exact (opt_all_mp _ H G)
+           | H : obj_all AB ?o, G : obj_all A ?o |- obj_all B ?o => exact (obj_all_mp _ H G)
+           | H : assert_all AB ?o, G : assert_all A ?o |- _ => exact (assert_all_mp _ H G)
+           | H : Forall (param_all AB) ?l, G : Forall (param_all A) ?l |- _ => exact (params_all_mp _ H G)
+           | H : Forall (bind_all AB) ?l, G : Forall (bind_all A) ?l |- _ => exact (binds_all_mp _ H G)
+           | H : Forall (spec_all AB) ?l, G : Forall (spec_all A) ?l |- _ => exact (specs_all_mp _ H G)
+           end).
+    - revert H0; apply Forall_mp; auto.
+    - revert H2; revert H0; apply Forall_mp3. apply arg_all_mp.
+  Qed.
+End AllMp.
+
+(* ---- every number literal of the children is fine when the node's are ---- *)
+Definition NumsOK (e : expr) : Prop := nums_ok e = true.
+
+Lemma forallb_flat {A B} (f : B -> bool) (g : A -> list B) l :
+  forallb f (flat g l) = true -> Forall (fun x => forallb f (g x) = true) l.
+Proof.
+  induction l as [|x t IH]; simpl; intros H; constructor.
+  - rewrite forallb_app in H. apply andb_true_iff in H. tauto.
+  - apply IH. rewrite forallb_app in H. apply andb_true_iff in H. tauto.
+Qed.
+
+Ltac split_forallb :=
+  repeat match goal with
+         | H : forallb _ (_ ++ _) = true |- _ => rewrite forallb_app in H; apply andb_true_iff in H; destruct H
+         | H : forallb _ (_ :: _) = true |- _ => simpl in H; apply andb_true_iff in H; destruct H
+         end.
+
+Lemma nums_opt o : forallb node_num_ok (opt_list nodes o) = true -> opt_all NumsOK o.
+Proof. destruct o; simpl; auto. Qed.
+Lemma nums_param p : forallb node_num_ok (param_nodes nodes p) = true -> param_all NumsOK p.
+Proof. destruct p; simpl; apply nums_opt. Qed.
+Lemma nums_params l : forallb node_num_ok (flat (param_nodes nodes) l) = true -> Forall (param_all NumsOK) l.
+Proof. intros H. apply forallb_flat in H. revert H. apply Forall_impl. intros p. apply nums_param. Qed.
+Lemma nums_bind b : forallb node_num_ok (bind_nodes nodes b) = true -> bind_all NumsOK b.
+Proof.
+  destruct b as [n ps v]; simpl; intros H. split_forallb. split; auto.
+  destruct ps as [[l sp]|]; simpl in *; auto. apply nums_params; auto.
+Qed.
+Lemma nums_binds l : forallb node_num_ok (flat (bind_nodes nodes) l) = true -> Forall (bind_all NumsOK) l.
+Proof. intros H. apply forallb_flat in H. revert H. apply Forall_impl. intros p. apply nums_bind. Qed.
+Lemma nums_assert a : forallb node_num_ok (assert_nodes nodes a) = true -> assert_all NumsOK a.
+Proof. destruct a; simpl; intros H; split_forallb; split; auto. apply nums_opt; auto. Qed.
+Lemma nums_spec c : forallb node_num_ok (spec_nodes nodes c) = true -> spec_all NumsOK c.
+Proof. destruct c; simpl; auto. Qed.
+Lemma nums_specs l : forallb node_num_ok (flat (spec_nodes nodes) l) = true -> Forall (spec_all NumsOK) l.
+Proof. intros H. apply forallb_flat in H. revert H. apply Forall_impl. intros p. apply nums_spec. Qed.
+Lemma nums_fname n : forallb node_num_ok (fname_nodes nodes n) = true -> fname_all NumsOK n.
+Proof. destruct n; simpl; auto. Qed.
+Lemma nums_field f : forallb node_num_ok (field_nodes nodes f) = true -> field_all NumsOK f.
+Proof.
+  destruct f; simpl; intros H; split_forallb; repeat split; auto using nums_fname, nums_params.
+Qed.
+Lemma nums_member m : forallb node_num_ok (member_nodes nodes m) = true -> member_all NumsOK m.
+Proof. destruct m; simpl; [apply nums_bind | apply nums_assert | apply nums_field]. Qed.
+Lemma nums_arg a : forallb node_num_ok (arg_nodes nodes a) = true -> arg_all NumsOK a.
+Proof. destruct a; simpl; auto. Qed.
+Lemma nums_obj o : forallb node_num_ok (obj_nodes nodes o) = true -> obj_all NumsOK o.
+Proof.
+  destruct o; simpl; intros H.
+  - apply forallb_flat in H. revert H. apply Forall_impl. intros p. apply nums_member.
+  - split_forallb. repeat split; auto using nums_binds, nums_specs.
+Qed.
+
+Lemma nums_children e : NumsOK e -> node_num_ok e = true /\ children_all NumsOK e.
+Proof.
+  unfold NumsOK at 1, nums_ok. destruct e; simpl; intros H;
+    try (apply andb_true_iff in H; destruct H as [H0 H]); split; auto; split_forallb;
+    repeat split; auto using nums_opt, nums_obj, nums_specs, nums_binds, nums_params, nums_assert.
+  - match goal with H : forallb _ (flat nodes _) = true |- _ => apply forallb_flat in H; exact H end.
+  - match goal with H : forallb _ (flat (arg_nodes nodes) _) = true |- _ =>
+      apply forallb_flat in H; revert H; apply Forall_impl; intros p; apply nums_arg end.
+Qed.
+
+(* induction restricted to trees whose number literals convert *)
+Theorem expr_ind_nums (Q : expr -> Prop) :
+  (forall e, node_num_ok e = true -> children_all Q e -> Q e) ->
+  forall e, NumsOK e -> Q e.
+Proof.
+  intros step e. induction e using expr_ind'. intros Hn.
+  destruct (nums_children e Hn) as [H0 Hc].
+  apply step; auto. exact (children_all_mp _ _ e H Hc).
+Qed.
+
+(* ====================================================================
+   2. Basic facts: outcomes, environments, the names loop
+   ==================================================================== *)
+Definition IsOk {A} (x : res A) : Prop := exists a, x = Ok a.
+
+Lemma IsOk_Ok {A} (a : A) : IsOk (Ok a : res A).
+Proof. eexists; reflexivity. Qed.
+Lemma IsOk_eq {A} (x : res A) a : x = Ok a -> IsOk x.
+Proof. intros ->; apply IsOk_Ok. Qed.
+Lemma IsOk_Err {A} e : ~ IsOk (Err e : res A).
+Proof. intros [a H]; discriminate. Qed.
+Lemma IsOk_Panic {A} s : ~ IsOk (Panic s : res A).
+Proof. intros [a H]; discriminate. Qed.
+Lemma IsOk_bind_inv {A B} (x : res A) (f : A -> res B) :
+  IsOk (obind x f) -> exists a, x = Ok a /\ IsOk (f a).
+Proof. destruct x; simpl; intros [b H]; try discriminate. exists a; split; auto. exists b; auto. Qed.
+Lemma IsOk_bind_intro {A B} (x : res A) (f : A -> res B) :
+  IsOk x -> (forall a, x = Ok a -> IsOk (f a)) -> IsOk (obind x f).
+Proof. intros [a ->] H. simpl. apply H; reflexivity. Qed.
+Lemma IsOk_is_ok {A} (x : res A) : IsOk x <-> is_ok x = true.
+Proof. destruct x; simpl; split; intros H; try discriminate; try (destruct H; discriminate); auto using IsOk_Ok. Qed.
+
+Ltac okinv H :=
+  let a := fresh "r" in let E := fresh "E" in
+  apply IsOk_bind_inv in H; destruct H as (a & E & H).
+
+Definition same_set (L vs : list str) : Prop := forall x, In x L <-> In x vs.
+
+Lemma same_set_refl L : same_set L L.
+Proof. intros x; tauto. Qed.
+Lemma same_set_cons n L vs : same_set L vs -> same_set (n :: L) (n :: vs).
+Proof. intros H x; simpl; rewrite (H x); tauto. Qed.
+Lemma same_set_rev_app names L vs : same_set L vs -> same_set (rev names ++ L) (names ++ vs).
+Proof. intros H x. rewrite !in_app_iff, <- in_rev, (H x). tauto. Qed.
+
+Lemma env_contains_In io L n : env_contains (mk_env io L) n = true <-> In n L.
+Proof.
+  unfold env_contains; simpl. rewrite existsb_exists. split.
+  - intros (y & Hy & He). apply str_eqb_eq in He. subst; auto.
+  - intros H. exists n; split; auto. apply str_eqb_eq; reflexivity.
+Qed.
+
+Definition keys {A} (l : list (str * A)) : list str := map fst l.
+
+Lemma assoc_None {A} n (l : list (str * A)) : assoc n l = None <-> ~ In n (keys l).
+Proof.
+  induction l as [|[k v] t IH]; simpl; [tauto|].
+  destruct (str_eqb n k) eqn:E.
+  - apply str_eqb_eq in E; subst. split; [discriminate | intros H; exfalso; apply H; auto].
+  - rewrite IH. split; intros H; [intros [H1|H1]; auto; subst; rewrite (proj2 (str_eqb_eq n n) eq_refl) in E; discriminate | tauto].
+Qed.
+
+Lemma assoc_Some_In {A} n (l : list (str * A)) v : assoc n l = Some v -> In (n, v) l.
+Proof.
+  induction l as [|[k w] t IH]; simpl; [discriminate|].
+  destruct (str_eqb n k) eqn:E.
+  - apply str_eqb_eq in E; subst. intros H; injection H as ->; auto.
+  - auto.
+Qed.
+
+(* the names loop: succeeds exactly when the names are pairwise distinct (and new) *)
+Lemma declare_names_ok mk ids : forall seen e,
+  IsOk (declare_names mk ids seen e) <->
+  NoDup (map id_value ids) /\ (forall n, In n (map id_value ids) -> ~ In n (keys seen)).
+Proof.
+  induction ids as [|i rest IH]; intros seen e; simpl.
+  - split; [intros _; split; [constructor | tauto] | intros _; apply IsOk_Ok].
+  - destruct (assoc (id_value i) seen) as [orig|] eqn:E.
+    + split; [intros H; exfalso; exact (IsOk_Err _ H)|].
+      intros [_ H]. exfalso. apply (H (id_value i)); auto.
+      apply assoc_Some_In in E. unfold keys. apply in_map_iff. exists (id_value i, orig); auto.
+    + rewrite IH. simpl. apply assoc_None in E. split.
+      * intros [H1 H2]. split.
+        -- constructor; auto. intros Hin. apply (H2 _ Hin). auto.
+        -- intros n [Hn|Hn]; [subst; auto|]. intros Hk. apply (H2 _ Hn). auto.
+      * intros [H1 H2]. inversion H1; subst. split; auto.
+        intros n Hn [Hk|Hk]; [subst; auto | apply (H2 n); auto].
+Qed.
+
+Lemma declare_names_env mk ids : forall seen e e',
+  declare_names mk ids seen e = Ok e' ->
+  e' = mk_env (is_obj e) (rev (map id_value ids) ++ vars e).
+Proof.
+  induction ids as [|i rest IH]; intros seen e e'; simpl.
+  - intros H; injection H as <-. destruct e; reflexivity.
+  - destruct (assoc (id_value i) seen); [discriminate|].
+    intros H. apply IH in H. subst e'. simpl. rewrite <- app_assoc. reflexivity.
+Qed.
+
+Lemma bind_declare {B} mk ids io L (k : env -> res B) :
+  IsOk (do inner <- declare_names mk ids [] (mk_env io L); k inner) <->
+  NoDup (map id_value ids) /\ IsOk (k (mk_env io (rev (map id_value ids) ++ L))).
+Proof.
+  split.
+  - intros H. okinv H. pose proof (declare_names_env _ _ _ _ _ E) as ->. simpl in H.
+    split; auto. apply (declare_names_ok mk ids [] (mk_env io L)). eexists; eauto.
+  - intros [H1 H2]. apply IsOk_bind_intro.
+    + apply declare_names_ok. split; auto.
+    + intros a Ha. pose proof (declare_names_env _ _ _ _ _ Ha) as ->. exact H2.
+Qed.
+
+Lemma mapM_ok {A B} (f : A -> res B) l : IsOk (mapM f l) <-> Forall (fun x => IsOk (f x)) l.
+Proof.
+  induction l as [|x t IH]; simpl.
+  - split; [constructor | intros _; apply IsOk_Ok].
+  - split.
+    + intros H. okinv H. okinv H. constructor; [eapply IsOk_eq; eauto | apply IH; eapply IsOk_eq; eauto].
+    + intros H. inversion H; subst. apply IsOk_bind_intro; auto. intros a _.
+      apply IsOk_bind_intro; [apply IH; auto | intros; apply IsOk_Ok].
+Qed.
+
+(* ====================================================================
+   3. analyze succeeds exactly on statically correct programs
+   ==================================================================== *)
+Definition Q (e : expr) : Prop :=
+  forall L vs io ts, same_set L vs ->
+    (IsOk (analyze_expr e (mk_env io L) ts) <-> StaticOK vs io e).
+
+Lemma optM_exact o L vs io ts : opt_all Q o -> same_set L vs ->
+  (IsOk (optM (fun x => analyze_expr x (mk_env io L) ts) o) <->
+   (forall x, o = Some x -> StaticOK vs io x)).
+Proof.
+  destruct o as [y|]; simpl; intros Hq Hs.
+  - split.
+    + intros H x Hx. injection Hx as <-. okinv H. eapply Hq; eauto. eapply IsOk_eq; eauto.
+    + intros H. apply IsOk_bind_intro; [eapply Hq; eauto | intros; apply IsOk_Ok].
+  - split; intros; [discriminate | apply IsOk_Ok].
+Qed.
+
+Lemma param_exact p L vs io : param_all Q p -> same_set L vs ->
+  (IsOk (analyze_param_with analyze_expr (mk_env io L) p) <-> ParamOK vs io p).
+Proof.
+  destruct p as [n d]; simpl; intros Hq Hs. split.
+  - intros H. okinv H. assert (Ho : IsOk (optM (fun x => analyze_expr x (mk_env io L) false) d)) by (eapply IsOk_eq; eauto).
+    destruct d; [constructor | constructor]. eapply (optM_exact (Some e)); eauto.
+  - intros H. apply IsOk_bind_intro; [| intros; apply IsOk_Ok].
+    eapply optM_exact; eauto. intros x ->. inversion H; subst; auto.
+Qed.
+
+Lemma map_param_ident ps : map id_value (map param_ident ps) = map param_name ps.
+Proof. rewrite map_map. reflexivity. Qed.
+Lemma map_bind_ident bs : map id_value (map bind_ident bs) = map bind_name bs.
+Proof. rewrite map_map. reflexivity. Qed.
+
+Lemma function_exact ps body L vs io : Forall (param_all Q) ps -> Q body -> same_set L vs ->
+  (IsOk (analyze_function_with analyze_expr ps body (mk_env io L)) <-> FunctionOK vs io ps body).
+Proof.
+  intros Hps Hb Hs. unfold analyze_function_with. rewrite bind_declare, map_param_ident.
+  assert (Hs' : same_set (rev (map param_name ps) ++ L) (map param_name ps ++ vs))
+    by (apply same_set_rev_app; auto).
+  split.
+  - intros [Hnd H]. okinv H. okinv H. constructor; auto.
+    + apply IsOk_eq, mapM_ok in E. revert E. revert Hps. apply Forall_mp3.
+      intros p Hp Hok. eapply param_exact; eauto.
+    + eapply Hb; eauto. eapply IsOk_eq; eauto.
+  - intros H; inversion H; subst. split; auto. apply IsOk_bind_intro.
+    + apply mapM_ok. revert H1. revert Hps. apply Forall_mp3.
+      intros p Hp Hok. eapply param_exact; eauto.
+    + intros a _. apply IsOk_bind_intro; [eapply Hb; eauto | intros; apply IsOk_Ok].
+Qed.
+
+Lemma bind_exact b L vs io : bind_all Q b -> same_set L vs ->
+  (IsOk (analyze_bind_with analyze_expr (mk_env io L) b) <-> BindOK vs io b).
+Proof.
+  destruct b as [n ps v]; simpl; intros [Hps Hv] Hs. destruct ps as [[l sp]|]; simpl in *.
+  - split.
+    + intros H. okinv H. constructor. eapply function_exact; eauto. eapply IsOk_eq; eauto.
+    + intros H. inversion H; subst. apply IsOk_bind_intro; [eapply function_exact; eauto | intros; apply IsOk_Ok].
+  - split.
+    + intros H. okinv H. constructor. eapply Hv; eauto. eapply IsOk_eq; eauto.
+    + intros H. inversion H; subst. apply IsOk_bind_intro; [eapply Hv; eauto | intros; apply IsOk_Ok].
+Qed.
+
+Lemma binds_exact bs L vs io : Forall (bind_all Q) bs -> same_set L vs ->
+  (IsOk (mapM (analyze_bind_with analyze_expr (mk_env io L)) bs) <-> Forall (BindOK vs io) bs).
+Proof.
+  intros Hq Hs. rewrite mapM_ok. split; intros H; revert H; revert Hq; apply Forall_mp3;
+    intros b Hb H; eapply bind_exact; eauto.
+Qed.
+
+Lemma assert_exact a L vs io : assert_all Q a -> same_set L vs ->
+  (IsOk (analyze_assert_with analyze_expr a (mk_env io L)) <-> AssertOK vs io a).
+Proof.
+  destruct a as [sp c m]; simpl; intros [Hc Hm] Hs. split.
+  - intros H. okinv H. okinv H. constructor.
+    + eapply Hc; eauto. eapply IsOk_eq; eauto.
+    + eapply optM_exact; eauto. eapply IsOk_eq; eauto.
+  - intros H. inversion H; subst. apply IsOk_bind_intro; [eapply Hc; eauto | intros a _].
+    apply IsOk_bind_intro; [eapply optM_exact; eauto | intros; apply IsOk_Ok].
+Qed.
+
+(* the scope the clauses of a comprehension leave behind *)
+Fixpoint specs_out (vs : list str) (cs : list comp_spec) : list str :=
+  match cs with
+  | [] => vs
+  | CFor v _ :: rest => specs_out (id_value v :: vs) rest
+  | CIf _ :: rest => specs_out vs rest
+  end.
+
+Lemma SpecsOK_out vs io cs vs' : SpecsOK vs io cs vs' -> vs' = specs_out vs cs.
+Proof.
+  revert vs. induction cs as [|c rest IH]; intros vs H; inversion H; subst; simpl; auto.
+Qed.
+
+Lemma specs_out_same cs : forall L vs, same_set L vs -> same_set (specs_out L cs) (specs_out vs cs).
+Proof.
+  induction cs as [|[v e|e] rest IH]; intros L vs Hs; simpl; auto. apply IH, same_set_cons; auto.
+Qed.
+
+Lemma comp_spec_env cs : forall io L r,
+  analyze_comp_spec_with analyze_expr cs (mk_env io L) = Ok r -> snd r = mk_env io (specs_out L cs).
+Proof.
+  induction cs as [|[v e|e] rest IH]; intros io L r; simpl.
+  - intros H; injection H as <-; reflexivity.
+  - destruct (analyze_expr e (mk_env io L) false); simpl; try discriminate.
+    unfold env_insert; simpl.
+    destruct (analyze_comp_spec_with analyze_expr rest (mk_env io (id_value v :: L))) eqn:E; simpl; try discriminate.
+    intros H; injection H as <-; simpl. eapply IH; eauto.
+  - destruct (analyze_expr e (mk_env io L) false); simpl; try discriminate.
+    destruct (analyze_comp_spec_with analyze_expr rest (mk_env io L)) eqn:E; simpl; try discriminate.
+    intros H; injection H as <-; simpl. eapply IH; eauto.
+Qed.
+
+Lemma specs_exact cs io : Forall (spec_all Q) cs -> forall L vs, same_set L vs ->
+  (IsOk (analyze_comp_spec_with analyze_expr cs (mk_env io L)) <-> SpecsOK vs io cs (specs_out vs cs)).
+Proof.
+  induction 1 as [|c rest Hc Hrest IH]; intros L vs Hs; simpl.
+  - split; [constructor | intros; apply IsOk_Ok].
+  - destruct c as [v e|e]; simpl in Hc.
+    + split.
+      * intros H0. okinv H0. okinv H0. constructor.
+        -- eapply Hc; eauto. eapply IsOk_eq; eauto.
+        -- eapply (IH (id_value v :: L)); [apply same_set_cons; eauto | eapply IsOk_eq; eauto].
+      * intros H0. inversion H0; subst. apply IsOk_bind_intro; [eapply Hc; eauto | intros a _].
+        apply IsOk_bind_intro; [| intros; apply IsOk_Ok].
+        eapply (IH (id_value v :: L)); [apply same_set_cons; eauto | auto].
+    + split.
+      * intros H0. okinv H0. okinv H0. constructor.
+        -- eapply Hc; eauto. eapply IsOk_eq; eauto.
+        -- eapply IH; eauto. eapply IsOk_eq; eauto.
+      * intros H0. inversion H0; subst. apply IsOk_bind_intro; [eapply Hc; eauto | intros a _].
+        apply IsOk_bind_intro; [| intros; apply IsOk_Ok]. eapply IH; eauto.
+Qed.
+
+(* ---- call arguments ---- *)
+Lemma positional_first_pos e rest : positional_first (APositional e :: rest) <-> positional_first rest.
+Proof.
+  split.
+  - intros (ps & ns & Heq & Hp & Hn). destruct ps as [|p ps]; simpl in Heq.
+    + subst ns. inversion Hn; subst. simpl in *. tauto.
+    + injection Heq as Hp1 Hr; subst. inversion Hp; subst. exists ps, ns; auto.
+  - intros (ps & ns & -> & Hp & Hn). exists (APositional e :: ps), ns. repeat split; auto.
+    constructor; simpl; auto.
+Qed.
+
+Lemma positional_first_named n e rest : positional_first (ANamed n e :: rest) <-> Forall is_named rest.
+Proof.
+  split.
+  - intros (ps & ns & Heq & Hp & Hn). destruct ps as [|p ps]; simpl in Heq.
+    + subst ns. inversion Hn; subst; auto.
+    + injection Heq as Hp1 Hr; subst. inversion Hp; subst. simpl in *. tauto.
+  - intros H. exists [], (ANamed n e :: rest). repeat split; auto. constructor; simpl; auto.
+Qed.
+
+Lemma args_exact args L vs io : Forall (arg_all Q) args -> same_set L vs -> forall pos named,
+  (IsOk (analyze_args_with analyze_expr (mk_env io L) args pos named) <->
+   Forall (ArgOK vs io) args /\
+   match named with [] => positional_first args | _ :: _ => Forall is_named args end).
+Proof.
+  intros Hq Hs. induction Hq as [|a rest Ha Hrest IH]; intros pos named; simpl.
+  - split; [intros _; split; [constructor|] | intros; apply IsOk_Ok].
+    destruct named; [exists [], []; repeat split; constructor | constructor].
+  - destruct a as [e|n e]; simpl in Ha.
+    + destruct named as [|nm named].
+      * split.
+        -- intros H. okinv H. apply IH in H. destruct H as [H1 H2]. simpl in H2. split.
+           ++ constructor; auto. constructor. eapply Ha; eauto. eapply IsOk_eq; eauto.
+           ++ apply positional_first_pos. exact H2.
+        -- intros [H1 H2]. inversion H1; subst. inversion H3; subst.
+           apply IsOk_bind_intro; [eapply Ha; eauto | intros a _].
+           apply IH. split; auto. exact (proj1 (positional_first_pos _ _) H2).
+      * split; [intros H; exfalso; exact (IsOk_Err _ H)|].
+        intros [_ H]. inversion H; subst. simpl in *. tauto.
+    + split.
+      * intros H. okinv H. apply IH in H. destruct H as [H1 H2].
+        assert (Hn : Forall is_named rest) by (destruct named; simpl in H2; auto).
+        split.
+        -- constructor; auto. constructor. eapply Ha; eauto. eapply IsOk_eq; eauto.
+        -- destruct named; [exact (proj2 (positional_first_named _ _ _) Hn) | constructor; simpl; auto].
+      * intros [H1 H2]. inversion H1; subst. inversion H3; subst.
+        apply IsOk_bind_intro; [eapply Ha; eauto | intros a _].
+        apply IH. split; auto.
+        assert (Hn : Forall is_named rest).
+        { destruct named; [exact (proj1 (positional_first_named _ _ _) H2) | inversion H2; auto]. }
+        destruct named; simpl; auto.
+Qed.
+
+(* ---- object members ---- *)
+Definition fix_inv (fields : list ir_field) (fix_fields : list (str * nat)) : Prop :=
+  forall n i, In (n, i) fix_fields -> (i < length fields)%nat.
+
+Lemma fix_field_name_spec fields fixf name sp :
+  fix_inv fields fixf ->
+  match fix_field_name fields fixf name sp with
+  | Ok (nm, sp', fixf') => ~ In name (keys fixf) /\ fixf' = (name, length fields) :: fixf
+  | Err _ => In name (keys fixf)
+  | _ => False
+  end.
+Proof.
+  intros Hinv. unfold fix_field_name. destruct (assoc name fixf) as [idx|] eqn:E.
+  - pose proof (assoc_Some_In _ _ _ E) as Hin. destruct (nth_error fields idx) eqn:En.
+    + unfold keys. apply in_map_iff. exists (name, idx); auto.
+    + apply nth_error_None in En. apply Hinv in Hin. lia.
+  - split; auto. apply assoc_None; auto.
+Qed.
+
+Lemma fix_inv_grow fields fixf name f :
+  fix_inv fields fixf -> fix_inv (fields ++ [f]) ((name, length fields) :: fixf).
+Proof.
+  intros H n i [Heq|Hin]; rewrite app_length; simpl.
+  - injection Heq as <- <-. lia.
+  - apply H in Hin. lia.
+Qed.
+
+Lemma fix_inv_keep fields fixf f : fix_inv fields fixf -> fix_inv (fields ++ [f]) fixf.
+Proof. intros H n i Hin. rewrite app_length. apply H in Hin. lia. Qed.
+
+Definition fname_static (n : field_name) : option str :=
+  match n with FnIdent i => Some (id_value i) | FnString s _ => Some s | FnExpr _ _ => None end.
+
+Lemma static_field_names_cons m rest :
+  static_field_names (m :: rest) =
+  match m with
+  | MField f => match fname_static (field_fname f) with
+                | Some s => s :: static_field_names rest
+                | None => static_field_names rest
+                end
+  | _ => static_field_names rest
+  end.
+Proof. destruct m as [b|a|[[i|s sp|e sp] ? ? ?|[i|s sp|e sp] ? ? ? ?]]; reflexivity. Qed.
+
+Lemma field_value_exact f L vs : field_all Q f -> same_set L vs ->
+  (IsOk (analyze_field_value_with analyze_expr (mk_env true L) f) <->
+   match f with
+   | FValue _ _ _ v => StaticOK vs true v
+   | FFunc _ ps _ _ v => FunctionOK vs true ps v
+   end).
+Proof.
+  destruct f; simpl; intros Hq Hs.
+  - destruct Hq as [_ Hv]. apply Hv; auto.
+  - destruct Hq as (_ & Hps & Hv). apply function_exact; auto.
+Qed.
+
+Lemma field_name_ok n L vs io fields fixf : fname_all Q n -> same_set L vs -> fix_inv fields fixf ->
+  (IsOk (analyze_field_name_with analyze_expr (mk_env io L) fields fixf n) <->
+   FieldNameOK vs io n /\ (forall s, fname_static n = Some s -> ~ In s (keys fixf))).
+Proof.
+  intros Hq Hs Hinv. destruct n as [i|s sp|e sp]; simpl.
+  - pose proof (fix_field_name_spec fields fixf (id_value i) (id_span i) Hinv) as H.
+    destruct (fix_field_name fields fixf (id_value i) (id_span i)) as [[[nm sp'] fx]| | |].
+    + split; [intros _; split; [constructor | intros s Hs'; injection Hs' as <-; tauto] | intros; apply IsOk_Ok].
+    + split; [intros H0; exfalso; exact (IsOk_Err _ H0) | intros [_ H0]; exfalso; eapply H0; eauto].
+    + contradiction.
+    + contradiction.
+  - pose proof (fix_field_name_spec fields fixf s sp Hinv) as H.
+    destruct (fix_field_name fields fixf s sp) as [[[nm sp'] fx]| | |].
+    + split; [intros _; split; [constructor | intros s' Hs'; injection Hs' as <-; tauto] | intros; apply IsOk_Ok].
+    + split; [intros H0; exfalso; exact (IsOk_Err _ H0) | intros [_ H0]; exfalso; eapply H0; eauto].
+    + contradiction.
+    + contradiction.
+  - simpl in Hq. split.
+    + intros H. okinv H. split; [constructor | intros; discriminate].
+      eapply Hq; eauto. eapply IsOk_eq; eauto.
+    + intros [H _]. inversion H; subst. apply IsOk_bind_intro; [eapply Hq; eauto | intros; apply IsOk_Ok].
+Qed.
+
+Lemma field_name_res n en fields fixf r : fix_inv fields fixf ->
+  analyze_field_name_with analyze_expr en fields fixf n = Ok r ->
+  snd r = match fname_static n with Some s => (s, length fields) :: fixf | None => fixf end.
+Proof.
+  intros Hinv. destruct n as [i|s sp|e sp]; simpl.
+  - pose proof (fix_field_name_spec fields fixf (id_value i) (id_span i) Hinv) as H.
+    intros E; rewrite E in H. destruct r as [[nm sp'] fx]. simpl. tauto.
+  - pose proof (fix_field_name_spec fields fixf s sp Hinv) as H.
+    intros E; rewrite E in H. destruct r as [[nm sp'] fx]. simpl. tauto.
+  - destruct (analyze_expr e en false); simpl; try discriminate. intros E; injection E as <-; reflexivity.
+Qed.
+
+Lemma member_field_ok vs io inner f :
+  MemberOK vs io inner (MField f) <->
+  FieldNameOK vs io (field_fname f) /\
+  match f with
+  | FValue _ _ _ v => StaticOK inner true v
+  | FFunc _ ps _ _ v => FunctionOK inner true ps v
+  end.
+Proof.
+  destruct f; simpl; split.
+  - intros H; inversion H; subst; auto.
+  - intros [H1 H2]; constructor; auto.
+  - intros H; inversion H; subst; auto.
+  - intros [H1 H2]; constructor; auto.
+Qed.
+
+Lemma members_exact ms L vs io Li inner : Forall (member_all Q) ms -> same_set L vs -> same_set Li inner ->
+  forall locals asserts fields fixf, fix_inv fields fixf ->
+  (IsOk (analyze_members_with analyze_expr (mk_env io L) (mk_env true Li) ms locals asserts fields fixf) <->
+   Forall (MemberOK vs io inner) ms /\ NoDup (static_field_names ms) /\
+   (forall s, In s (static_field_names ms) -> ~ In s (keys fixf))).
+Proof.
+  intros Hq Hs Hsi. induction Hq as [|m rest Hm Hrest IH]; intros locals asserts fields fixf Hinv.
+  - simpl. split; [intros _; repeat split; [constructor | constructor | tauto] | intros; apply IsOk_Ok].
+  - rewrite static_field_names_cons. destruct m as [b|a|f]; simpl in Hm; simpl analyze_members_with.
+    + split.
+      * intros H. okinv H. apply IH in H; auto. destruct H as (H1 & H2 & H3). repeat split; auto.
+        constructor; auto. constructor. eapply bind_exact; eauto. eapply IsOk_eq; eauto.
+      * intros (H1 & H2 & H3). inversion H1; subst. inversion H4; subst.
+        apply IsOk_bind_intro; [eapply bind_exact; eauto | intros r _]. apply IH; auto.
+    + split.
+      * intros H. okinv H. apply IH in H; auto. destruct H as (H1 & H2 & H3). repeat split; auto.
+        constructor; auto. constructor. eapply assert_exact; eauto. eapply IsOk_eq; eauto.
+      * intros (H1 & H2 & H3). inversion H1; subst. inversion H4; subst.
+        apply IsOk_bind_intro; [eapply assert_exact; eauto | intros r _]. apply IH; auto.
+    + assert (Hfn : fname_all Q (field_fname f)) by (destruct f; simpl in *; tauto).
+      split.
+      * intros H. okinv H. okinv H.
+        pose proof (field_name_res _ _ _ _ _ Hinv E0) as Hres.
+        assert (Hnm : IsOk (analyze_field_name_with analyze_expr (mk_env io L) fields fixf (field_fname f)))
+          by (eapply IsOk_eq; eauto).
+        apply (field_name_ok _ L vs io fields fixf Hfn Hs Hinv) in Hnm. destruct Hnm as [Hn1 Hn2].
+        assert (Hv : IsOk (analyze_field_value_with analyze_expr (mk_env true Li) f)) by (eapply IsOk_eq; eauto).
+        apply (field_value_exact f Li inner Hm Hsi) in Hv.
+        assert (Hmem : MemberOK vs io inner (MField f)) by (apply member_field_ok; auto).
+        rewrite Hres in H. destruct (fname_static (field_fname f)) as [s|].
+        -- apply IH in H; [| apply fix_inv_grow; auto]. destruct H as (H1 & H2 & H3).
+           repeat split; auto.
+           ++ constructor; auto. intros Hin. apply (H3 _ Hin). simpl; auto.
+           ++ intros x [<-|Hx]; [apply Hn2; auto|]. intros Hk. apply (H3 _ Hx). simpl; auto.
+        -- apply IH in H; [| apply fix_inv_keep; auto]. destruct H as (H1 & H2 & H3).
+           repeat split; auto.
+      * intros (H1 & H2 & H3). inversion H1; subst. apply member_field_ok in H4. destruct H4 as [Hn Hv].
+        apply IsOk_bind_intro; [eapply field_value_exact; eauto | intros value _].
+        destruct (fname_static (field_fname f)) as [s|] eqn:Est.
+        -- assert (Hnm : IsOk (analyze_field_name_with analyze_expr (mk_env io L) fields fixf (field_fname f))).
+           { apply (proj2 (field_name_ok _ L vs io fields fixf Hfn Hs Hinv)). split; auto. intros s' Hst. rewrite Est in Hst. injection Hst as <-.
+             apply H3. simpl; auto. }
+           apply IsOk_bind_intro; auto. intros nm Enm.
+           rewrite (field_name_res _ _ _ _ _ Hinv Enm), Est.
+           inversion H2; subst. apply IH; [apply fix_inv_grow; auto|]. repeat split; auto.
+           intros x Hx [Hk|Hk]; [simpl in Hk; subst; auto | apply (H3 x); simpl; auto].
+        -- assert (Hnm : IsOk (analyze_field_name_with analyze_expr (mk_env io L) fields fixf (field_fname f))).
+           { apply (proj2 (field_name_ok _ L vs io fields fixf Hfn Hs Hinv)). split; auto. intros s' Hst. rewrite Est in Hst. discriminate. }
+           apply IsOk_bind_intro; auto. intros nm Enm.
+           rewrite (field_name_res _ _ _ _ _ Hinv Enm), Est.
+           apply IH; [apply fix_inv_keep; auto|]. repeat split; auto.
+Qed.
+
+Lemma fix_inv_nil : fix_inv [] [].
+Proof. intros n i []. Qed.
+
+Lemma objinside_exact o L vs io : obj_all Q o -> same_set L vs ->
+  (IsOk (analyze_objinside_with analyze_expr o (mk_env io L)) <-> ObjOK vs io o).
+Proof.
+  destruct o as [ms | l1 name plus body l2 cs]; simpl; intros Hq Hs.
+  - unfold env_set_obj; simpl. rewrite bind_declare, map_bind_ident.
+    assert (Hs' : same_set (rev (map bind_name (member_locals ms)) ++ L) (map bind_name (member_locals ms) ++ vs))
+      by (apply same_set_rev_app; auto).
+    split.
+    + intros [Hnd H]. okinv H.
+      assert (Hm : IsOk (analyze_members_with analyze_expr (mk_env io L)
+                          (mk_env true (rev (map bind_name (member_locals ms)) ++ L)) ms [] [] [] []))
+        by (eapply IsOk_eq; eauto).
+      eapply members_exact in Hm; eauto using fix_inv_nil. destruct Hm as (H1 & H2 & H3).
+      constructor; auto.
+    + intros H. inversion H; subst. split; auto.
+      apply IsOk_bind_intro.
+      * eapply members_exact; eauto using fix_inv_nil; repeat split; auto.
+      * intros [[ls as_] fs] _. apply IsOk_Ok.
+  - destruct Hq as (Hl1 & Hn & Hb & Hl2 & Hcs).
+    assert (Hl : Forall (bind_all Q) (l1 ++ l2)) by (apply Forall_app; auto).
+    split.
+    + intros H. okinv H. destruct r as [parts e']. pose proof (comp_spec_env _ _ _ _ E) as He. simpl in He. subst e'.
+      assert (Hsp : SpecsOK vs io cs (specs_out vs cs)) by (eapply specs_exact; eauto; eapply IsOk_eq; eauto).
+      unfold env_set_obj in H; simpl in H. rewrite bind_declare, map_bind_ident in H. destruct H as [Hnd H].
+      pose proof (specs_out_same cs _ _ Hs) as Hso.
+      assert (Hs' : same_set (rev (map bind_name (l1 ++ l2)) ++ specs_out L cs) (map bind_name (l1 ++ l2) ++ specs_out vs cs))
+        by (apply same_set_rev_app; auto).
+      okinv H. okinv H. okinv H. okinv H.
+      econstructor; eauto.
+      * apply Forall_app. split.
+        -- eapply binds_exact; eauto. eapply IsOk_eq; eauto.
+        -- eapply binds_exact; eauto. eapply IsOk_eq; eauto.
+      * eapply Hn; eauto. eapply IsOk_eq; eauto.
+      * eapply Hb; eauto. eapply IsOk_eq; eauto.
+    + intros H. inversion H; subst.
+      match goal with Hx : SpecsOK _ _ _ ?v |- _ => pose proof (SpecsOK_out _ _ _ _ Hx); subst v end.
+      pose proof (specs_out_same cs _ _ Hs) as Hso.
+      assert (Hs' : same_set (rev (map bind_name (l1 ++ l2)) ++ specs_out L cs) (map bind_name (l1 ++ l2) ++ specs_out vs cs))
+        by (apply same_set_rev_app; auto).
+      apply IsOk_bind_intro; [eapply specs_exact; eauto|]. intros [parts e'] E.
+      pose proof (comp_spec_env _ _ _ _ E) as He. simpl in He. subst e'.
+      unfold env_set_obj; simpl. rewrite bind_declare, map_bind_ident. split; auto.
+      match goal with Hx : Forall (BindOK _ _) (l1 ++ l2) |- _ => apply Forall_app in Hx; destruct Hx as [Hb1 Hb2] end.
+      apply IsOk_bind_intro; [eapply binds_exact; eauto | intros ls1 _].
+      apply IsOk_bind_intro; [eapply binds_exact; eauto | intros ls2 _].
+      apply IsOk_bind_intro; [eapply Hn; eauto | intros fn _].
+      apply IsOk_bind_intro; [eapply Hb; eauto | intros fv _]. apply IsOk_Ok.
+Qed.
+
+Ltac ok_of E := eapply IsOk_eq; exact E.
+
+Lemma import_exact mk sp path vs io (C : span -> expr -> expr) :
+  (forall psp s, StaticOK vs io (C sp (EString psp s))) ->
+  (forall p, StaticOK vs io (C sp p) -> exists psp s, p = EString psp s) ->
+  (IsOk (analyze_import mk sp path) <-> StaticOK vs io (C sp path)).
+Proof.
+  intros H1 H2. split.
+  - destruct path; simpl; intros H; try (exfalso; exact (IsOk_Err _ H)). apply H1.
+  - intros H. apply H2 in H. destruct H as (psp & s & ->). simpl. apply IsOk_Ok.
+Qed.
+
+Theorem analyze_Q : forall e, NumsOK e -> Q e.
+Proof.
+  apply expr_ind_nums. intros e Hnum Hc L vs io ts Hs.
+  destruct e; simpl in Hc; simpl in Hnum; simpl analyze_expr.
+  - (* ENull *) split; [constructor | intros; apply IsOk_Ok].
+  - (* EBool *) split; [constructor | intros; apply IsOk_Ok].
+  - (* ESelf *) destruct io; simpl; split; intros H;
+      [constructor | apply IsOk_Ok | exfalso; exact (IsOk_Err _ H) | inversion H].
+  - (* EDollar *) destruct io; simpl; split; intros H;
+      [constructor | apply IsOk_Ok | exfalso; exact (IsOk_Err _ H) | inversion H].
+  - (* EString *) split; [constructor | intros; apply IsOk_Ok].
+  - (* ETextBlock *) split; [constructor | intros; apply IsOk_Ok].
+  - (* ENumber *) rewrite Hnum. split; [constructor | intros; apply IsOk_Ok].
+  - (* EParen *) split; intros H; [constructor; eapply Hc; eauto | inversion H; subst; eapply Hc; eauto].
+  - (* EObject *) rewrite objinside_exact by eauto. split; intros H; [constructor; auto | inversion H; auto].
+  - (* EArray *) split.
+    + intros H. okinv H. apply IsOk_eq, mapM_ok in E. constructor. revert E. revert Hc. apply Forall_mp3.
+      intros x Hx Hok. eapply Hx; eauto.
+    + intros H. inversion H; subst. apply IsOk_bind_intro; [| intros; apply IsOk_Ok].
+      apply mapM_ok. revert H3. revert Hc. apply Forall_mp3. intros x Hx Hok. eapply Hx; eauto.
+  - (* EArrayComp *) destruct Hc as [Hb Hcs]. split.
+    + intros H. okinv H. pose proof (comp_spec_env _ _ _ _ E) as He. rewrite He in H. okinv H.
+      econstructor.
+      * eapply specs_exact; eauto. ok_of E.
+      * eapply Hb; [eapply specs_out_same; eauto | ok_of E0].
+    + intros H. inversion H; subst.
+      match goal with Hx : SpecsOK _ _ _ ?v |- _ => pose proof (SpecsOK_out _ _ _ _ Hx); subst v end.
+      apply IsOk_bind_intro; [eapply specs_exact; eauto | intros r E].
+      pose proof (comp_spec_env _ _ _ _ E) as He. rewrite He.
+      apply IsOk_bind_intro; [| intros; apply IsOk_Ok].
+      eapply Hb; [eapply specs_out_same; eauto | auto].
+  - (* EField *) split.
+    + intros H. okinv H. constructor. eapply Hc; eauto. ok_of E.
+    + intros H. inversion H; subst. apply IsOk_bind_intro; [eapply Hc; eauto | intros; apply IsOk_Ok].
+  - (* EIndex *) destruct Hc as [Ha Hb]. split.
+    + intros H. okinv H. okinv H. constructor; [eapply Ha; eauto; ok_of E | eapply Hb; eauto; ok_of E0].
+    + intros H. inversion H; subst. apply IsOk_bind_intro; [eapply Ha; eauto | intros ? _].
+      apply IsOk_bind_intro; [eapply Hb; eauto | intros; apply IsOk_Ok].
+  - (* ESlice *) destruct Hc as (Hx & Ha & Hb & Hcc). split.
+    + intros H. okinv H. okinv H. okinv H. okinv H. constructor.
+      * eapply Hx; eauto. ok_of E.
+      * eapply optM_exact; eauto. ok_of E0.
+      * eapply optM_exact; eauto. ok_of E1.
+      * eapply optM_exact; eauto. ok_of E2.
+    + intros H. inversion H; subst.
+      apply IsOk_bind_intro; [eapply Hx; eauto | intros ? _].
+      apply IsOk_bind_intro; [eapply optM_exact; eauto | intros ? _].
+      apply IsOk_bind_intro; [eapply optM_exact; eauto | intros ? _].
+      apply IsOk_bind_intro; [eapply optM_exact; eauto | intros; apply IsOk_Ok].
+  - (* ESuperField *) destruct io; simpl; split; intros H;
+      [constructor | apply IsOk_Ok | exfalso; exact (IsOk_Err _ H) | inversion H].
+  - (* ESuperIndex *) destruct io; simpl; split; intros H.
+    + okinv H. constructor. eapply Hc; eauto. ok_of E.
+    + inversion H; subst. apply IsOk_bind_intro; [eapply Hc; eauto | intros; apply IsOk_Ok].
+    + exfalso; exact (IsOk_Err _ H).
+    + inversion H.
+  - (* ECall *) destruct Hc as [Hf Hargs]. split.
+    + intros H. okinv H. okinv H.
+      assert (Ha : IsOk (analyze_args_with analyze_expr (mk_env io L) args [] [])) by ok_of E0.
+      eapply args_exact in Ha; eauto. destruct Ha as [Ha1 Ha2].
+      constructor; auto. eapply Hf; eauto. ok_of E.
+    + intros H. inversion H; subst. apply IsOk_bind_intro; [eapply Hf; eauto | intros ? _].
+      apply IsOk_bind_intro; [| intros; apply IsOk_Ok]. eapply args_exact; eauto.
+  - (* EIdent *) destruct (env_contains (mk_env io L) (id_value name)) eqn:E.
+    + apply env_contains_In in E. split; [intros _; constructor; apply Hs; auto | intros; apply IsOk_Ok].
+    + split; [intros H; exfalso; exact (IsOk_Err _ H)|]. intros H. inversion H; subst.
+      apply Hs in H3. apply env_contains_In with (io := io) in H3. congruence.
+  - (* ELocal *) destruct Hc as [Hbs Hb]. rewrite bind_declare, map_bind_ident.
+    assert (Hs' : same_set (rev (map bind_name binds) ++ L) (map bind_name binds ++ vs))
+      by (apply same_set_rev_app; auto).
+    split.
+    + intros [Hnd H]. okinv H. okinv H. constructor; auto.
+      * eapply binds_exact; eauto. ok_of E.
+      * eapply Hb; eauto. ok_of E0.
+    + intros H. inversion H; subst. split; auto.
+      apply IsOk_bind_intro; [eapply binds_exact; eauto | intros ? _].
+      apply IsOk_bind_intro; [eapply Hb; eauto | intros; apply IsOk_Ok].
+  - (* EIf *) destruct Hc as (Hcc & Ht & Hf). split.
+    + intros H. okinv H. okinv H. okinv H. constructor.
+      * eapply Hcc; eauto. ok_of E.
+      * eapply Ht; eauto. ok_of E0.
+      * eapply optM_exact; eauto. ok_of E1.
+    + intros H. inversion H; subst.
+      apply IsOk_bind_intro; [eapply Hcc; eauto | intros ? _].
+      apply IsOk_bind_intro; [eapply Ht; eauto | intros ? _].
+      apply IsOk_bind_intro; [eapply optM_exact; eauto | intros; apply IsOk_Ok].
+  - (* EBinary *) destruct Hc as [Ha Hb]. split.
+    + intros H. okinv H. okinv H. constructor; [eapply Ha; eauto; ok_of E | eapply Hb; eauto; ok_of E0].
+    + intros H. inversion H; subst. apply IsOk_bind_intro; [eapply Ha; eauto | intros ? _].
+      apply IsOk_bind_intro; [eapply Hb; eauto | intros; apply IsOk_Ok].
+  - (* EUnary *) split.
+    + intros H. okinv H. constructor. eapply Hc; eauto. ok_of E.
+    + intros H. inversion H; subst. apply IsOk_bind_intro; [eapply Hc; eauto | intros; apply IsOk_Ok].
+  - (* EObjExt *) destruct Hc as [Ha Ho]. split.
+    + intros H. okinv H. okinv H. constructor; [eapply Ha; eauto; ok_of E |].
+      eapply objinside_exact; eauto. ok_of E0.
+    + intros H. inversion H; subst. apply IsOk_bind_intro; [eapply Ha; eauto | intros ? _].
+      apply IsOk_bind_intro; [eapply objinside_exact; eauto | intros; apply IsOk_Ok].
+  - (* EFunc *) destruct Hc as [Hps Hb]. rewrite function_exact by eauto.
+    split; intros H; [constructor; auto | inversion H; auto].
+  - (* EAssert *) destruct Hc as [Ha Hb]. split.
+    + intros H. okinv H. okinv H. constructor; [eapply assert_exact; eauto; ok_of E | eapply Hb; eauto; ok_of E0].
+    + intros H. inversion H; subst. apply IsOk_bind_intro; [eapply assert_exact; eauto | intros ? _].
+      apply IsOk_bind_intro; [eapply Hb; eauto | intros; apply IsOk_Ok].
+  - (* EImport *) apply (import_exact IImport sp e vs io EImport); [intros; constructor|].
+    intros p H; inversion H; subst; eauto.
+  - (* EImportStr *) apply (import_exact IImportStr sp e vs io EImportStr); [intros; constructor|].
+    intros p H; inversion H; subst; eauto.
+  - (* EImportBin *) apply (import_exact IImportBin sp e vs io EImportBin); [intros; constructor|].
+    intros p H; inversion H; subst; eauto.
+  - (* EError *) split.
+    + intros H. okinv H. constructor. eapply Hc; eauto. ok_of E.
+    + intros H. inversion H; subst. apply IsOk_bind_intro; [eapply Hc; eauto | intros; apply IsOk_Ok].
+  - (* EInSuper *) destruct io; simpl; split; intros H.
+    + okinv H. constructor. eapply Hc; eauto. ok_of E.
+    + inversion H; subst. apply IsOk_bind_intro; [eapply Hc; eauto | intros; apply IsOk_Ok].
+    + exfalso; exact (IsOk_Err _ H).
+    + inversion H.
+Qed.
+
+(* headline: the analyzer accepts exactly the statically correct programs *)
+Theorem analyze_exact : forall e vs io,
+  nums_ok e = true ->
+  ((exists ir, analyze_expr e (mk_env io vs) false = Ok ir) <-> StaticOK vs io e).
+Proof. intros e vs io Hn. apply (analyze_Q e Hn vs vs io false (same_set_refl vs)). Qed.
+
+(* ====================================================================
+   4. No panic: on trees whose number literals convert, the analyzer answers
+      Ok or Err (the index into the collected fields is always in range)
+   ==================================================================== *)
+Definition Clean {A} (x : res A) : Prop :=
+  match x with Ok _ | Err _ => True | Panic _ | OutOfFuel => False end.
+
+Lemma Clean_bind {A B} (x : res A) (f : A -> res B) :
+  Clean x -> (forall a, x = Ok a -> Clean (f a)) -> Clean (obind x f).
+Proof. destruct x; simpl; auto. Qed.
+
+Lemma mapM_clean {A B} (f : A -> res B) l : Forall (fun x => Clean (f x)) l -> Clean (mapM f l).
+Proof.
+  induction 1 as [|x t Hx Ht IH]; simpl; auto.
+  apply Clean_bind; auto. intros a _. apply Clean_bind; auto. intros; exact I.
+Qed.
+
+Lemma declare_names_clean mk ids : forall seen e, Clean (declare_names mk ids seen e).
+Proof.
+  induction ids as [|i rest IH]; intros seen e; simpl; auto.
+  destruct (assoc (id_value i) seen); simpl; auto.
+Qed.
+
+Definition C (e : expr) : Prop := forall en ts, Clean (analyze_expr e en ts).
+
+Lemma optM_clean o en ts : opt_all C o -> Clean (optM (fun x => analyze_expr x en ts) o).
+Proof. destruct o; simpl; auto. intros H. apply Clean_bind; auto. intros; exact I. Qed.
+
+Lemma param_clean p en : param_all C p -> Clean (analyze_param_with analyze_expr en p).
+Proof. destruct p; simpl. intros H. apply Clean_bind; [apply optM_clean; auto | intros; exact I]. Qed.
+
+Lemma function_clean ps body en : Forall (param_all C) ps -> C body ->
+  Clean (analyze_function_with analyze_expr ps body en).
+Proof.
+  intros Hps Hb. unfold analyze_function_with. apply Clean_bind; [apply declare_names_clean | intros inner _].
+  apply Clean_bind.
+  - apply mapM_clean. revert Hps. apply Forall_impl. intros p. apply param_clean.
+  - intros a _. apply Clean_bind; [apply Hb | intros; exact I].
+Qed.
+
+Lemma bind_clean b en : bind_all C b -> Clean (analyze_bind_with analyze_expr en b).
+Proof.
+  destruct b as [n ps v]; simpl. intros [Hps Hv]. apply Clean_bind; [| intros; exact I].
+  destruct ps as [[l sp]|]; simpl in *; [apply function_clean; auto | apply Hv].
+Qed.
+
+Lemma binds_clean bs en : Forall (bind_all C) bs -> Clean (mapM (analyze_bind_with analyze_expr en) bs).
+Proof. intros H. apply mapM_clean. revert H. apply Forall_impl. intros b. apply bind_clean. Qed.
+
+Lemma assert_clean a en : assert_all C a -> Clean (analyze_assert_with analyze_expr a en).
+Proof.
+  destruct a; simpl. intros [Hc Hm]. apply Clean_bind; [apply Hc | intros ? _].
+  apply Clean_bind; [apply optM_clean; auto | intros; exact I].
+Qed.
+
+Lemma specs_clean cs : Forall (spec_all C) cs -> forall en, Clean (analyze_comp_spec_with analyze_expr cs en).
+Proof.
+  induction 1 as [|c rest Hc Hrest IH]; intros en; simpl; auto.
+  destruct c; simpl in Hc; (apply Clean_bind; [apply Hc | intros ? _]);
+    (apply Clean_bind; [apply IH | intros; exact I]).
+Qed.
+
+Lemma args_clean args en : Forall (arg_all C) args -> forall pos named,
+  Clean (analyze_args_with analyze_expr en args pos named).
+Proof.
+  induction 1 as [|a rest Ha Hrest IH]; intros pos named; simpl; auto.
+  destruct a; simpl in Ha.
+  - destruct named; simpl; auto. apply Clean_bind; [apply Ha | intros; apply IH].
+  - apply Clean_bind; [apply Ha | intros; apply IH].
+Qed.
+
+Lemma field_name_clean n en fields fixf : fname_all C n -> fix_inv fields fixf ->
+  Clean (analyze_field_name_with analyze_expr en fields fixf n).
+Proof.
+  intros Hq Hinv. destruct n as [i|s sp|e sp]; simpl.
+  - pose proof (fix_field_name_spec fields fixf (id_value i) (id_span i) Hinv) as H.
+    destruct (fix_field_name fields fixf (id_value i) (id_span i)); simpl; auto.
+  - pose proof (fix_field_name_spec fields fixf s sp Hinv) as H.
+    destruct (fix_field_name fields fixf s sp); simpl; auto.
+  - apply Clean_bind; [apply Hq | intros; exact I].
+Qed.
+
+Lemma members_clean ms outer inner : Forall (member_all C) ms ->
+  forall locals asserts fields fixf, fix_inv fields fixf ->
+  Clean (analyze_members_with analyze_expr outer inner ms locals asserts fields fixf).
+Proof.
+  induction 1 as [|m rest Hm Hrest IH]; intros locals asserts fields fixf Hinv; simpl; auto.
+  destruct m as [b|a|f]; simpl in Hm.
+  - apply Clean_bind; [apply bind_clean; auto | intros; apply IH; auto].
+  - apply Clean_bind; [apply assert_clean; auto | intros; apply IH; auto].
+  - assert (Hfn : fname_all C (field_fname f)) by (destruct f; simpl in *; tauto).
+    apply Clean_bind.
+    + destruct f; simpl in *; [apply Hm | apply function_clean; tauto].
+    + intros value _. apply Clean_bind; [apply field_name_clean; auto | intros nm Enm].
+      rewrite (field_name_res _ _ _ _ _ Hinv Enm).
+      destruct (fname_static (field_fname f)); apply IH; [apply fix_inv_grow | apply fix_inv_keep]; auto.
+Qed.
+
+Lemma objinside_clean o en : obj_all C o -> Clean (analyze_objinside_with analyze_expr o en).
+Proof.
+  destruct o as [ms | l1 name plus body l2 cs]; simpl; intros Hq.
+  - apply Clean_bind; [apply declare_names_clean | intros inner _].
+    apply Clean_bind; [apply members_clean; auto using fix_inv_nil | intros [[? ?] ?] _; exact I].
+  - destruct Hq as (Hl1 & Hn & Hb & Hl2 & Hcs).
+    apply Clean_bind; [apply specs_clean; auto | intros [parts e'] _].
+    apply Clean_bind; [apply declare_names_clean | intros inner _].
+    apply Clean_bind; [apply binds_clean; auto | intros ? _].
+    apply Clean_bind; [apply binds_clean; auto | intros ? _].
+    apply Clean_bind; [apply Hn | intros ? _].
+    apply Clean_bind; [apply Hb | intros; exact I].
+Qed.
+
+Ltac clean_step :=
+  match goal with
+  | |- Clean (Ok _) => exact I
+  | |- Clean (Err _) => exact I
+  | |- Clean (if ?b then _ else _) => destruct b
+  | |- Clean (obind _ _) => apply Clean_bind; [| intros ? _]
+  | H : C ?e |- Clean (analyze_expr ?e _ _) => apply H
+  | |- Clean (optM _ _) => apply optM_clean; assumption
+  | |- Clean (analyze_objinside_with _ _ _) => apply objinside_clean; assumption
+  | |- Clean (analyze_comp_spec_with _ _ _) => apply specs_clean; assumption
+  | |- Clean (analyze_args_with _ _ _ _ _) => apply args_clean; assumption
+  | |- Clean (declare_names _ _ _ _) => apply declare_names_clean
+  | |- Clean (mapM (analyze_bind_with _ _) _) => apply binds_clean; assumption
+  | |- Clean (analyze_function_with _ _ _ _) => apply function_clean; assumption
+  | |- Clean (analyze_assert_with _ _ _) => apply assert_clean; assumption
+  end.
+
+Theorem analyze_C : forall e, NumsOK e -> C e.
+Proof.
+  apply expr_ind_nums. intros e Hnum Hc en ts.
+  destruct e; simpl in Hc; simpl in Hnum; simpl analyze_expr;
+    repeat match goal with H : _ /\ _ |- _ => destruct H end;
+    try solve [repeat clean_step].
+  - rewrite Hnum; exact I.
+  - apply Clean_bind; [| intros; exact I]. apply mapM_clean. revert Hc. apply Forall_impl. intros x Hx; apply Hx.
+  - destruct e; simpl; exact I.
+  - destruct e; simpl; exact I.
+  - destruct e; simpl; exact I.
+Qed.
+
+Theorem analyze_no_panic : forall e en ts,
+  nums_ok e = true ->
+  (exists ir, analyze_expr e en ts = Ok ir) \/ (exists x, analyze_expr e en ts = Err x).
+Proof.
+  intros e en ts Hn. pose proof (analyze_C e Hn en ts) as H.
+  destruct (analyze_expr e en ts); simpl in H; try contradiction; eauto.
+Qed.
+
+(* ====================================================================
+   5. Scope-shape corollaries
+   ==================================================================== *)
+Lemma Q_of_nums_bind b : bind_all NumsOK b -> bind_all Q b.
+Proof. apply bind_all_mp. apply bind_rec. exact analyze_Q. Qed.
+
+Lemma SpecsOK_app vs io pre rest out :
+  SpecsOK vs io (pre ++ rest) out -> SpecsOK (specs_out vs pre) io rest out.
+Proof.
+  revert vs. induction pre as [|c pre IH]; intros vs H; simpl in *; auto.
+  inversion H; subst; simpl; auto.
+Qed.
+
+Lemma specs_out_vars cs : forall vs,
+  specs_out vs cs = rev (flat (fun c => match c with CFor v _ => [id_value v] | CIf _ => [] end) cs) ++ vs.
+Proof.
+  induction cs as [|[v e|e] rest IH]; intros vs; simpl; auto.
+  rewrite IH. rewrite <- app_assoc. reflexivity.
+Qed.
+
+Lemma nums_member_in ms m : Forall (member_all NumsOK) ms -> In m ms -> member_all NumsOK m.
+Proof. intros H Hin. rewrite Forall_forall in H. auto. Qed.
+
+(* a computed field name is analysed in the scope of the object expression itself:
+   neither the object's locals nor its self are visible in it *)
+Theorem field_name_sees_outer_scope : forall sp ms vs io ts f e nsp,
+  nums_ok (EObject sp (OMembers ms)) = true ->
+  is_ok (analyze_expr (EObject sp (OMembers ms)) (mk_env io vs) ts) = true ->
+  In (MField f) ms -> field_fname f = FnExpr e nsp ->
+  is_ok (analyze_expr e (mk_env io vs) false) = true.
+Proof.
+  intros sp ms vs io ts f e nsp Hn Hok Hin Hf. apply IsOk_is_ok in Hok. apply IsOk_is_ok.
+  apply (analyze_Q _ Hn vs vs io ts (same_set_refl vs)) in Hok.
+  destruct (nums_children _ Hn) as [_ Hc]. simpl in Hc.
+  pose proof (nums_member_in _ _ Hc Hin) as Hm. simpl in Hm.
+  inversion Hok; subst.
+  match goal with Hx : ObjOK _ _ _ |- _ => inversion Hx; subst end.
+  match goal with Hx : Forall (MemberOK _ _ _) _ |- _ => rewrite Forall_forall in Hx; specialize (Hx _ Hin); rename Hx into H6 end.
+  apply member_field_ok in H6. destruct H6 as [Hfn _].
+  rewrite Hf in Hfn. inversion Hfn; subst.
+  assert (He : NumsOK e) by (destruct f; simpl in Hf, Hm; subst; simpl in Hm; tauto).
+  apply (analyze_Q e He vs vs io false (same_set_refl vs)). auto.
+Qed.
+
+(* the source of a [for] clause sees the variables of the clauses to its left
+   only; the body sees all of them *)
+Theorem comp_vars_left_to_right : forall sp body pre v src post vs io ts,
+  nums_ok (EArrayComp sp body (pre ++ CFor v src :: post)) = true ->
+  is_ok (analyze_expr (EArrayComp sp body (pre ++ CFor v src :: post)) (mk_env io vs) ts) = true ->
+  is_ok (analyze_expr src (mk_env io (specs_out vs pre)) false) = true /\
+  is_ok (analyze_expr body (mk_env io (specs_out vs (pre ++ CFor v src :: post))) false) = true.
+Proof.
+  intros sp body pre v src post vs io ts Hn Hok. apply IsOk_is_ok in Hok. rewrite <- !IsOk_is_ok.
+  apply (analyze_Q _ Hn vs vs io ts (same_set_refl vs)) in Hok.
+  destruct (nums_children _ Hn) as [_ [Hb Hcs]].
+  inversion Hok; subst.
+  match goal with Hx : SpecsOK _ _ _ ?o |- _ => pose proof (SpecsOK_out _ _ _ _ Hx); subst o; rename Hx into Hsp end.
+  split.
+  - apply SpecsOK_app in Hsp. inversion Hsp; subst.
+    apply Forall_app in Hcs. destruct Hcs as [_ Hcs]. inversion Hcs; subst. simpl in H1.
+    apply (analyze_Q src H1 _ _ io false (same_set_refl _)). auto.
+  - apply (analyze_Q body Hb _ _ io false (same_set_refl _)). auto.
+Qed.
+
+(* the locals of an object see each other (earlier and later ones) and self *)
+Theorem object_locals_mutual : forall sp ms vs io ts b,
+  nums_ok (EObject sp (OMembers ms)) = true ->
+  is_ok (analyze_expr (EObject sp (OMembers ms)) (mk_env io vs) ts) = true ->
+  In (MLocal b) ms ->
+  is_ok (analyze_bind_with analyze_expr (mk_env true (map bind_name (member_locals ms) ++ vs)) b) = true.
+Proof.
+  intros sp ms vs io ts b Hn Hok Hin. apply IsOk_is_ok in Hok. apply IsOk_is_ok.
+  apply (analyze_Q _ Hn vs vs io ts (same_set_refl vs)) in Hok.
+  destruct (nums_children _ Hn) as [_ Hc]. simpl in Hc.
+  pose proof (nums_member_in _ _ Hc Hin) as Hm. simpl in Hm.
+  inversion Hok; subst.
+  match goal with Hx : ObjOK _ _ _ |- _ => inversion Hx; subst end.
+  match goal with Hx : Forall (MemberOK _ _ _) _ |- _ => rewrite Forall_forall in Hx; specialize (Hx _ Hin); rename Hx into H6 end.
+  inversion H6; subst.
+  eapply bind_exact; eauto using same_set_refl. apply Q_of_nums_bind; auto.
+Qed.
